@@ -1,8 +1,10 @@
 import IbcVerif.Driver.WasmStore
+import IbcVerif.Driver.Localhost
 
 def main (args : List String) : IO UInt32 := do
   match args with
   | ["wasmstore"] => IbcVerif.Driver.WasmStore.main; return 0
+  | ["localhost"] => IbcVerif.Driver.Localhost.main; return 0
   | _ =>
     IO.eprintln "usage: lcmodel <engine>   (engines: wasmstore, localhost, attest, solo)"
     return 2
